@@ -8,8 +8,12 @@ the lines for the Lean driver `drv eager` (trace validation against `Model/Eager
 
 Time: the unit is U = 2**-ulog seconds; every generated time (arrival gaps, wait, consumer holds) is
 an integer number of units, so every clock value the code computes is an exact dyadic float and is
-reported in integer units.  Virtual time advances only when every thread is blocked (no "early"
-timer firing): this is the zero-processing-time reading the model's `tick` guard formalises.
+reported in integer units.  In the default (`strict`) cases virtual time advances only when every
+thread is blocked (no "early" timer firing): this is the zero-processing-time reading the model's
+`tick` guard formalises, and the one in which "no delay" is checked.  In `lazy` cases the chooser may
+fire the earliest timer although threads are runnable (an OS may delay any thread for any finite
+time): there the model runs with `strict = false`, and partition and "short only after the wait has
+expired on an empty queue" are checked, but of course not "no delay".
 
 Events (all stamped with the virtual clock in units):
   ('arrive', code, t)   producer's put took effect      (hook: LogQueue._put, under the queue mutex)
@@ -130,9 +134,11 @@ def gen_case(rng: random.Random, tier: str, bias: str = ''):
     if rng.random() < 0.06:
         wait_arg = None                      # constructor default: 60 s if batch_size > 1 else 0
     ulog = rng.choice([3, 3, 6, 10]) if wait_arg is not None else 0
-    ch = rng.choice([('random', 0.0), ('random', 0.0), ('sticky', 0.2, 0.0), ('sticky', 0.05, 0.0),
-                     ('pct', 2, 200, 0.0), ('pct', 3, 200, 0.0)])
-    return dict(bs=bs, wait=wait_arg, ulog=ulog, end=end, arrivals=arrivals, holds=holds,
+    lazy = rng.random() < 0.25
+    ep = rng.choice([0.03, 0.1, 0.3]) if lazy else 0.0
+    ch = rng.choice([('random', ep), ('random', ep), ('sticky', 0.2, ep), ('sticky', 0.05, ep),
+                     ('pct', 2, 200, ep), ('pct', 3, 200, ep)])
+    return dict(bs=bs, wait=wait_arg, ulog=ulog, end=end, arrivals=arrivals, holds=holds, lazy=lazy,
                 bias=bias, chooser=list(ch), seed=rng.randrange(1 << 30))
 
 
@@ -336,6 +342,7 @@ def monitor(case, ev, received, blocked):
         hits.append(dict(prop='C19', rule=rule, detail=detail))
 
     end, bs, wait = case['end'], case['bs'], eff_wait(case)
+    lazy = bool(case.get('lazy'))      # time may pass while the batcher is runnable: no "no delay" checks
     puts = [v for _t, v in case['arrivals']]
     arr = [(e[1], e[2]) for e in ev if e[0] == 'arrive']
     # --- what was put, in order (the producer is sequential, so `arrive` events follow the script)
@@ -378,16 +385,21 @@ def monitor(case, ev, received, blocked):
     cur_n = 0
     last_take = None       # (is_end, time)
     delivered = 0
+    n_arr_ev = 0           # arrive events so far
+    arr_before_last_take = 0
     for e in ev:
         kind = e[0]
-        if kind == 'take':
+        if kind == 'arrive':
+            n_arr_ev += 1
+        elif kind == 'take':
+            arr_before_last_take = n_arr_ev
             t = e[2]
             if n_taken >= n_arr:
                 hit('partition-content', 'a get returned something that was never put')
                 break
             v = put_done[n_taken]
             want = max(arr_time[n_taken], ready)
-            if t != want:
+            if t != want and not (lazy and t > want):
                 hit('no-delay', f'item #{n_taken} arrived at {arr_time[n_taken]}, batcher ready at {ready}, but taken at {t}')
             n_taken += 1
             ise = is_end(v, end)
@@ -414,10 +426,14 @@ def monitor(case, ev, received, blocked):
                 if seen > delivered:
                     hit('short-only-if', f'short batch {b} emitted at {t} although {seen - delivered} more item(s) had arrived '
                                          f'before t_first + wait = {dl}')
-                if t > dl:
+                elif arr_before_last_take > delivered:
+                    # whatever was put before the batch's last get returned was queued when the batcher looked again
+                    hit('short-only-if', f'short batch {b} emitted at {t} although {arr_before_last_take - delivered} more '
+                                         f'item(s) were already queued when its last item was taken')
+                if t > dl and not lazy:
                     hit('no-delay', f'short batch {b} emitted at {t} > t_first + wait = {cur_t0} + {wait}')
             else:
-                if last_take is None or t != last_take[1]:
+                if last_take is None or (t != last_take[1] and not (lazy and t > last_take[1])):
                     hit('no-delay', f'batch {b} (full or cut by the end marker) complete at {last_take and last_take[1]} but emitted at {t}')
             cur_n = 0
             cur_t0 = None
@@ -427,7 +443,7 @@ def monitor(case, ev, received, blocked):
             t = e[1]
             if not (last_take is not None and last_take[0]):
                 hit('partition-content', 'iteration ended without taking an end marker')
-            elif t != max(last_take[1], ready):
+            elif t != max(last_take[1], ready) and not (lazy and t > max(last_take[1], ready)):
                 hit('no-delay', f'end marker taken at {last_take[1]}, consumer ready at {ready}, StopIteration at {t}')
     return hits
 
@@ -442,7 +458,7 @@ def _n(x):
 
 def model_lines(cid, case, res):
     end = case['end']
-    lines = [f'case {cid} bs={case["bs"]} wait={eff_wait(case)} end={enc(end)}']
+    lines = [f'case {cid} bs={case["bs"]} wait={eff_wait(case)} end={enc(end)} strict={0 if case.get("lazy") else 1}']
     now = 0
     n_arr = n_take = n_out = 0
     stopped = False
@@ -499,13 +515,15 @@ def _clock_selftest(case):
     exp = [('arrive', 1, 1), ('take', 1, 1), ('arrive', 2, 2), ('take', 2, 2), ('emit', [1, 2], 5), ('resume', 8),
            ('arrive', 3, 9), ('take', 3, 9), ('emit', [3], 13), ('resume', 13), ('arrive', 'N', 20), ('take', 'N', 20),
            ('stop', 20)]
-    if [tuple(x) for x in r['events']] != exp:
-        problems.append(f'virtual-time run differs from the hand-computed one: {r["events"]}')
-    if r['monitors']:
-        problems.append(f'monitors fired on the self-test run: {r["monitors"]}')
+    # (whether the batches/clocks are RIGHT is the monitors' and the model's business, not this test's: a changed
+    #  EagerBatcher must end as a verdict, never as a harness problem)
+    exact = [tuple(x) for x in r['events']] == exp
+    if r['end_clock'] < 20 or not r['events']:
+        problems.append(f'virtual time did not advance as scripted: end clock {r["end_clock"]} units')
     if real > 5.0:
         problems.append(f'run over 2**20 virtual seconds took {real:.1f}s of real time: some wait is on the real clock')
     if r['vclock_reads'] < 4:
         problems.append(f'the code read the virtual clock only {r["vclock_reads"]} times')
     return dict(events=r['events'], monitors=[], switches=r['switches'], clocktest=dict(ok=not problems, problems=problems,
-                trapped=trapped, real_s=round(real, 3), vclock_reads=r['vclock_reads']))
+                trapped=trapped, real_s=round(real, 3), vclock_reads=r['vclock_reads'],
+                matches_hand_computed_run=exact))
